@@ -321,6 +321,16 @@ def mat_ref(t):
     return mat_probe_ok(shape, w, a, b), shape, zr
 
 
+def miser_zero_width(t):
+    """region of known finding K-C10-3: Integrate_2D / Integrate_3D with method "Miser" over a region one of whose dimensions has coinciding limits
+    (anywhere in the case: the request itself, a sub-case of a sequence)"""
+    for i, w in enumerate(t):
+        if w in ("int2", "int3") and i + 1 < len(t) and t[i + 1] == "Miser":
+            d = 4 if w == "int2" else 6; lim = [tokf(x) for x in t[i + 2:i + 2 + d]]
+            if len(lim) == d and None not in lim and any(lim[2 * k] == lim[2 * k + 1] for k in range(d // 2)): return True
+    return False
+
+
 def session_subs(t):
     """the sub-cases (token lists) of `session n c1 ;; c2 ;; ...`"""
     subs, cur = [], []
@@ -886,7 +896,7 @@ def gen_coinciding(rng, big, add, grids):
     """two-argument requests whose arguments coincide or nearly coincide (Integrate(x, x), Local_Minimum(x, x), ...): x at every kind of place -
     inside, at the ends, in the tolerance band, at the tolerance point +-ulp, beyond it by a little and by a lot, infinite, NaN - and pairs
     (x, x') at relative distances 1 ulp, 1e-16 .. 1e-6 in both orders; as first request of an object and after other requests"""
-    for g in (grids if big else grids[:2] + rng.sample(grids[2:], 2)):
+    for g in (grids[:10] + rng.sample(grids[10:], 10) if big else grids[:2] + rng.sample(grids[2:], 2)):
         tl, tr = 1e-2 * (g[1] - g[0]), 1e-2 * (g[-1] - g[-2]); w = g[-1] - g[0]
         xs = [g[0], g[-1], 0.5 * (g[0] + g[1]), g[len(g) // 2], g[0] - 0.5 * tl, g[-1] + 0.5 * tr, g[0] - tl, g[-1] + tr, na(g[0] - tl, math.inf), na(g[0] - tl, -math.inf),
               na(g[-1] + tr, math.inf), na(g[-1] + tr, -math.inf), g[0] - 1.2 * tl, g[-1] + 1.2 * tr, g[0] - 0.5 * (g[1] - g[0]), g[-1] + 0.5 * (g[-1] - g[-2]), g[0] - 3.0 * w, g[-1] + 10.0 * w,
@@ -904,7 +914,7 @@ def gen_coinciding(rng, big, add, grids):
                 add(f"icalls {flist(g)} {len(g)} {hx(xd)} {hx(-1.0)} {len(pre) + 1} " + " ".join(pre + [f"{rng.choice(['int', 'int', 'min', 'max'])} {hx(x * f)} {hx(x * f)}"]), "coinciding-arguments", nt=True)
             if math.isnan(x) or math.isinf(x) or x == 0.0: continue
             near = [na(x, math.inf), na(x, -math.inf)] + [x * (1.0 + sg * r_) for r_ in (1e-16, 1e-13, 1e-10, 1e-6) for sg in (1.0, -1.0)]
-            for y in (near if big else rng.sample(near, 1)):
+            for y in rng.sample(near, 4 if big else 1):
                 a, b = (x, y) if rng.random() < 0.5 else (y, x)
                 add(f"interp_integrate {flist(g)} {hx(a)} {hx(b)}", "coinciding-arguments", nt=True)
                 if big: add(f"local_min {flist(g)} {hx(min(a, b))} {hx(max(a, b))}", "coinciding-arguments", nt=True)
@@ -1230,7 +1240,8 @@ def extra(ctx, rng):
         kinds[head] = kinds.get(head, 0) + 1
         op = l.split()[0]
         if head in ("SANITIZER", "CRASH", "TIMEOUT", "HARNESSERR", "EXIT0", "EXIT_NODIAG"):
-            out["violations"].append({"sig": f"sanitizer:{op}", "msg": f"sanitizer build (ASan+UBSan+_GLIBCXX_ASSERTIONS): the implementation ended with {io} on this request", "case": l, "impl": io, "model": mo_by.get(l, "")})
+            region = ":miser-zero-width-region" if (head == "SANITIZER" and io.split()[1:2] == ["98"] and op in ("nested", "session") and miser_zero_width(l.split())) else ""
+            out["violations"].append({"sig": f"sanitizer:{op}{region}", "msg": f"sanitizer build (ASan+UBSan+_GLIBCXX_ASSERTIONS): the implementation ended with {io} on this request", "case": l, "impl": io, "model": mo_by.get(l, "")})
             continue
         if io != mo_by.get(l, ""):
             dis += 1
